@@ -268,6 +268,50 @@ class Session:
         return res
 
 
+# ----------------------------------------------------------------------------- completeness
+def completeness(sx, label, name, accept, extra=(), timeout_s=300, verbose=False):
+    """'if' direction: for EVERY input satisfying `accept` some witness exists. Existential hint wires
+    are Skolemised by the digits of the value they decompose (the semantics of plonky2's split/range
+    generators, validated against the real generators by the honest-witness check); auxiliary
+    definitional variables of the encoding (quotients, product bits) are total by construction.
+    Query: accept ∧ definitions ∧ skolem ∧ ¬(all remaining constraints)  must be UNSAT."""
+    facts, fits, done = sx.skolem_facts()
+    def_ids = {d.get_id() for d in sx.defs}
+    chks = [a for a in sx.asserts if a.get_id() not in def_ids]
+    # (i) totality of the Skolem definitions: every decomposed value fits its digits whenever the input is accepted
+    s0 = Session(label, list(sx.defs) + list(extra) + [accept], timeout_s=timeout_s, verbose=verbose)
+    gaps = sum(1 for f in fits if f is None)
+    fit_goals = [f for f in fits if f is not None]
+    if fit_goals:
+        r0 = s0.holds(f"{name}: every split/range-checked value fits its digit width ({len(fit_goals)} groups)", z3.And(fit_goals))
+    s = Session(label, list(sx.defs) + list(facts) + list(extra) + [accept], timeout_s=timeout_s, verbose=verbose)
+    s.results += s0.results
+    if gaps:
+        s.results.append(Result(f"{name}: {gaps} hint groups with gapped digits (totality not claimed)", "holds", "UNKNOWN", 0.0))
+    s.sat(name + " [vacuity: an accepted input exists]")
+    # one obligation per remaining circuit constraint (they are independent given the definitions)
+    t0 = time.time()
+    bad, unknown = [], []
+    for a in chks:
+        s.solver.push()
+        s.solver.add(z3.Not(a))
+        r = s.solver.check()
+        if r == z3.sat:
+            bad.append((a, s.solver.model()))
+        elif r != z3.unsat:
+            unknown.append(a)
+        s.solver.pop()
+        if bad:
+            break
+    verdict = "CEX" if bad else ("UNKNOWN" if unknown else "HOLDS")
+    res = Result(f"{name} ({len(chks)} circuit constraints, hints Skolemised)", "holds", verdict, time.time() - t0)
+    if bad:
+        res.model = {"__model__": bad[0][1]}
+        res.detail = [str(bad[0][0])[:200]]
+    s._log(res)
+    return s
+
+
 # ----------------------------------------------------------------------------- translator validation
 def validate_witnesses(sx, ir, label="", timeout_s=120):
     """Every honest witness produced by the real plonky2 generators on the real circuit must
